@@ -433,7 +433,8 @@ def r4_wire(chk: Check):
 
 
 def count_terms(m) -> int:
-    return json.dumps(m).count('["emit"') + json.dumps(m).count('["rec"') + json.dumps(m).count('["for"') + json.dumps(m).count('["if"')
+    t = json.dumps(m)
+    return t.count('["emit"') + t.count('["rec"') + t.count('["loop"') + t.count('["if"')
 
 
 def diff_models(pinned, now):
@@ -442,24 +443,21 @@ def diff_models(pinned, now):
     for k, v in pu["tags"].items():
         if nu["tags"].get(k) != v:
             diffs.append((f"tag {k}", v, nu["tags"].get(k)))
-    if pu.get("prelude") != nu.get("prelude"):
-        diffs.append(("update prelude", json.dumps(pu.get("prelude")), json.dumps(nu.get("prelude"))))
     pk = [b[0] for b in pu["branches"]]
     nk = [b[0] for b in nu["branches"]]
-    # pinned kinds must appear in the same relative order; extra kinds may only be added after them
     common = [k for k in nk if k in pk]
     if common != pk:
         diffs.append(("value-kind dispatch order", pk, nk))
     else:
         idx_last = max(nk.index(k) for k in pk if k != "else")
-        extra = [k for k in nk if k not in pk]
-        for k in extra:
+        for k in [k for k in nk if k not in pk]:
             if nk.index(k) < idx_last:
                 diffs.append((f"new value kind {k} tested before released kinds", pk, nk))
     nb = dict((b[0], b[1]) for b in nu["branches"])
-    for k, terms in pu["branches"]:
-        if k in nb and nb[k] != terms:
-            diffs.append((f"update[{k}]", first_diff(terms, nb[k])[0], first_diff(terms, nb[k])[1]))
+    for k, traces in pu["branches"]:
+        if k in nb and nb[k] != traces:
+            a, b = first_diff(traces, nb[k])
+            diffs.append((f"update[{k}]", a, b))
     for part in ("identifiers", "compute"):
         if pinned[part] != now[part]:
             a, b = first_diff(pinned[part], now[part])
@@ -473,7 +471,7 @@ def first_diff(a, b):
         for x, y in zip(a, b):
             if x != y:
                 return first_diff(x, y)
-    return json.dumps(a)[:300], json.dumps(b)[:300]
+    return json.dumps(a, ensure_ascii=False)[:300], json.dumps(b, ensure_ascii=False)[:300]
 
 
 def r5_jobpath(chk: Check):
